@@ -432,15 +432,15 @@ Proof.
 Qed.
 
 Lemma series_count_length : forall ins : list achunk,
-  forallb (fun k => Nat.leb (length (olist (k_count k))) 706) ins = true ->
-  (length (series k_count ins) <= 706 * length ins)%nat.
+  forallb (fun k => Nat.leb (length (olist (k_count k))) 720) ins = true ->
+  (length (series k_count ins) <= 720 * length ins)%nat.
 Proof.
   induction ins as [|k r IH]; intros H; [cbn; lia|].
   cbn [forallb] in H. apply andb_true_iff in H as [Hk H]. apply Nat.leb_le in Hk.
   rewrite series_cons, app_length. cbn [length]. specialize (IH H). lia.
 Qed.
 
-(* 5m chunks written by DownsampleRaw (<= 706 rows each) re-downsampled to 1h with a target
+(* 5m chunks written by DownsampleRaw (<= 720 rows each) re-downsampled to 1h with a target
    chunk count bounded as the heuristic guarantees: never more target chunks than chunks, so
    max(len/numChunks, 1) = len/numChunks *)
 Lemma clamp_noop nc (ins : list achunk) :
@@ -452,9 +452,9 @@ Proof.
   assert (HL : (1 <= length ins)%nat) by (destruct ins; [congruence|cbn; lia]).
   assert (Hle : (nc <= length ins)%nat).
   { set (c := Z.of_nat (length (series k_count ins))) in *. set (L := Z.of_nat (length ins)).
-    assert (Hc' : c <= 706 * L) by (unfold c, L; lia).
+    assert (Hc' : c <= 720 * L) by (unfold c, L; lia).
     assert (0 <= c) by (unfold c; lia). assert (1 <= L) by (unfold L; lia).
-    assert (c / 12 <= 59 * L) by (apply Z.div_le_upper_bound; lia).
+    assert (c / 12 <= 60 * L) by (apply Z.div_le_upper_bound; lia).
     assert ((c / 12 + 2) / 141 + 1 <= L).
     { assert ((c / 12 + 2) / 141 < L); [|lia]. apply Z.div_lt_upper_bound; lia. }
     unfold L in *. lia. }
